@@ -62,6 +62,13 @@ UNICODE_NAMES = {
 }
 
 
+# names containing characters that are separators elsewhere in the code (`:` of text ids and itext keys, `.` and `-` of
+# header / list handling): namespace-prefixed names need the `namespaces` setting
+SEPARATOR_NAMES = {"cq": "ex:cq", "cg": "ex:cg", "cgq": "cg.q", "c1": "ex:c1", "c2": "c-2", "k1": "k.1", "k2": "ex:k2", "t1": "t-1",
+                   "tq": "ex:tq", "tg": "t.g", "cr": "c-r", "crq": "ex:crq", "k": "k-", "kn": "ex:k.n-"}
+NAMESPACES_SETTING = [{"namespaces": 'ex="http://example.com/ex"'}]
+
+
 def rename_form(form, mapping):
     """rename elements everywhere: name cells and every `${…}` / `${last-saved#…}` occurrence"""
     def ref(m):
@@ -78,7 +85,7 @@ def rename_form(form, mapping):
 
 
 LITE_KEEP = {"cq": ("type", "name", "label", "relevant", "constraint", "default"),
-             "drop": ("kl", "s", "ss", "sm", "sn", "dd", "ddt", "dgp", "dgt", "dgs", "dti", "cx", "cxq")}
+             "drop": ("kl", "ki", "s", "ss", "sm", "sn", "dd", "ddt", "dgp", "dgt", "dgs", "dti", "cx", "cxq")}
 
 
 def layout_form(common, rchain, tchain, policy, target_first=True, lite=False):
@@ -102,6 +109,10 @@ def layout_form(common, rchain, tchain, policy, target_first=True, lite=False):
         return form
     if policy == "unicode":
         return rename_form(layout_form(common, rchain, tchain, "neutral", target_first), UNICODE_NAMES)
+    if policy == "separators":
+        form = rename_form(layout_form(common, rchain, tchain, "neutral", target_first), SEPARATOR_NAMES)
+        form["settings"] = NAMESPACES_SETTING
+        return form
     kn, cn, tn = rc.names_for(policy, common, rchain, tchain)
     rows = []
 
@@ -157,6 +168,8 @@ def layout_form(common, rchain, tchain, policy, target_first=True, lite=False):
         rows.append({"type": "calculate", "name": "kl",
                      "calculation": "concat(" + ", ".join(f"${{last-saved#{n}}}" for n in T) + ") + "
                      + "instance('l')/root/item[" + " or ".join(f"name = ${{{n}}}" for n in T) + "]/label"})
+        rows.append({"type": "calculate", "name": "ki",
+                     "calculation": "indexed-repeat(${tq},\n  ${tr},\n  ${cq}) + ${tq} + indexed-repeat(${tgq}, ${tr}, 1)"})
         rows.append({"type": "calculate", "name": "kn",
                      "calculation": "instance('l')/root/item[" + nested(T) + "]/label"})
         rows.append({"type": "select_one l", "name": "s", "label": "S",
@@ -268,7 +281,8 @@ def random_expr(rng, els, text=False):
             return "${last-saved#%s}" % rng.choice(qs)
         if x < 0.75 and reps:
             idx = rng.choice(["1", "${%s}" % rng.choice(qs), "2"])
-            return "indexed-repeat(${%s}, ${%s}, %s)" % (rng.choice(qs), rng.choice(reps), idx)
+            sep = ",\n " if rng.random() < 0.3 and not text else ", "
+            return ("indexed-repeat(${%s}" + sep + "${%s}" + sep + "%s)") % (rng.choice(qs), rng.choice(reps), idx)
         if x < 0.87:
             return "instance('l')/root/item[name = ${%s}]/label" % rng.choice(anyn)
         if x < 0.93 and not text:
@@ -329,7 +343,7 @@ def code_ia_flag(src, start, end, name):
     for m in re.finditer(r"indexed-repeat\([^)]+\)", src):
         if start < m.start() or end > m.end():
             continue
-        args = re.search(r"\b[^()]+\((.*)\)$", m.group()).group(1).split(",")
+        args = re.search(r"\b[^()]+\((.*)\)$", m.group(), re.S).group(1).split(",")
         idx = None
         for i, a in enumerate(args):
             if "${%s}" % name in a.strip():
@@ -648,7 +662,10 @@ def corr_insert(ctx, form, holes, tree):
         ctx.count(f"insert_xpaths-from-text:{m['out']}")
         if m["out"] == "unsupported":
             continue
-        if m["out"] != "ok" or (m["text"].strip() != h["out"].strip() if h["cell"] == "seed" else m["text"] != h["out"]):
+        # a cell with a line break: how the break reaches the attribute (cell cleaning, XML attribute-value normalisation)
+        # is C06's subject; compare modulo whitespace runs
+        norm = (lambda x: re.sub(r"\s+", " ", x)) if "\n" in h["src"] else (lambda x: x)
+        if m["out"] != "ok" or (m["text"].strip() != h["out"].strip() if h["cell"] == "seed" else norm(m["text"]) != norm(h["out"])):
             ctx.mismatch(f"insert_xpaths of {h['cell']}", {"form": form, "query": q}, h["out"], m.get("text", m["out"]))
 
 
@@ -823,14 +840,17 @@ def bad_name_case(ctx, form, els):
     ctx.record(case, True)
 
 
-def shared_text_form(chain, tlevel, variant):
+def shared_text_form(chain, tlevel, variant, names="plain"):
     """The SAME text-with-reference on referrers at every depth of a chain of groups/repeats (and one outside), in
     cells whose text travels through itext: translated label/hint, label with media, hint with guidance, constraint /
     required messages.  Each referrer needs its own path to the target."""
     rows = []
 
+    qn = (lambda i: f"q{i}") if names == "plain" else (lambda i: ("ex:q%d", "q.%d", "q-%d")[i % 3] % i)
+    cn = (lambda i: f"c{i}") if names == "plain" else (lambda i: ("ex:c%d", "c.%d", "ex:c-%d")[i % 3] % i)
+
     def referrer(i):
-        r = {"type": "text", "name": f"q{i}"}
+        r = {"type": "text", "name": qn(i)}
         if variant == "translated":
             r.update({"label::en": "Value ${t} here", "label::fr": "Valeur ${t} ici", "hint::en": "Hint ${t} .", "hint::fr": "Aide ${t} .",
                       "constraint": ". != 'x'", "constraint_message": "Bad ${t} !", "required": "yes", "required_message": "Need ${t} !"})
@@ -846,7 +866,7 @@ def shared_text_form(chain, tlevel, variant):
     if tlevel == 0:
         rows.append(target())
     for i, kind in enumerate(chain):
-        row = {"type": f"begin {kind}", "name": f"c{i+1}"}
+        row = {"type": f"begin {kind}", "name": cn(i + 1)}
         if variant == "translated":
             row.update({"label::en": "Box ${t} .", "label::fr": "Boite ${t} ."})
         else:
@@ -857,7 +877,10 @@ def shared_text_form(chain, tlevel, variant):
         rows.append(referrer(i + 1))
     for kind in reversed(chain):
         rows.append({"type": f"end {kind}"})
-    return {"survey": rows}
+    form = {"survey": rows}
+    if names != "plain":
+        form["settings"] = NAMESPACES_SETTING
+    return form
 
 
 def explore(ctx, factor, bs):
@@ -879,6 +902,9 @@ def explore(ctx, factor, bs):
             n += 1
             ctx.count("policy:unicode")
             form_case(ctx, layout_form(common, rchain, tchain, "unicode", target_first=(n % 2 == 0)), direct=ctx.pick(10, 40) * factor)
+            n += 1
+            ctx.count("policy:separators")
+            form_case(ctx, layout_form(common, rchain, tchain, "separators", target_first=(n % 2 == 0)), direct=ctx.pick(5, 40) * factor)
     _t.append(('0', time.time()))
     # a name carried by k = 2..6 elements in different groups/repeats, and one reference to it per cell kind
     for k in range(2, 7):
@@ -913,6 +939,7 @@ def explore(ctx, factor, bs):
                 for variant in ("translated", "media"):
                     ctx.count(f"shared-text:{variant}")
                     form_case(ctx, shared_text_form(chain, tlevel, variant), tag="shared-text")
+                    form_case(ctx, shared_text_form(chain, tlevel, variant, names="separators"), tag="shared-text-separators")
     _t.append(('2', time.time()))
     # finding F46's shape: minus before the first reference in a date/geo default (and the same default on other types)
     for typ in HYPHEN_TYPES + ("integer", "text"):
@@ -954,14 +981,7 @@ def replay(ctx, payload, bs):
     return (len(ctx.failures), len(ctx.mismatches)) == before
 
 
-def m_minus_before_ref_default(f: Failure) -> bool:
-    """utils.default_is_dynamic returns False at the first blank-surrounded `-` of a date/dateTime/geo default, before it
-    has seen a later `${reference}` / function call: the default is written raw into the instance, the reference is
-    never expanded (nor checked)"""
-    return f.kind in ("ref-token-survives", "cell-not-found") and f.extra.get("only_static_minus_defaults") is True
-
-
-MATCHERS = {"F46-default-minus-before-reference": m_minus_before_ref_default}
+MATCHERS = {}
 
 
 def main(argv):
